@@ -140,6 +140,7 @@ def worker(job):
             case["err"] = "%s: %s" % (type(e).__name__, str(e)[:160])
             return [case]
         case["built"] = True
+        flat = _flat_parser(real, g)
         case["prods"] = [{"lhs": p.symbol.fqn, "rhs": [s.fqn for s in p.rhs if s.name != "EMPTY"]} for p in g.productions]
         case["terms"] = [[t.fqn, t.recognizer.value] for n, t in g.terminals.items() if n not in ("EMPTY", "STOP")]
         # helper rules of the sugar, identified by the documented suffix AND their structure; their names are not compared (the real helper
@@ -173,12 +174,21 @@ def worker(job):
             if tuple(toks) in seen or len(toks) > 8:
                 continue
             seen.add(tuple(toks))
-            e = {"toks": toks, "ok": False, "complete": True, "trees": [], "results": [], "raised": ""}
+            e = {"toks": toks, "ok": False, "complete": True, "trees": [], "results": [], "raised": "", "hasflat": False, "okflat": False}
+            if flat is not None:
+                try:
+                    with real.guard(8), real.quiet():
+                        flat.parse(" ".join(toks))
+                    e.update(hasflat=True, okflat=True)
+                except real.parglare.SyntaxError:
+                    e.update(hasflat=True, okflat=False)
+                except Exception:  # noqa: BLE001
+                    pass
             try:
                 with real.guard(8), real.quiet():
                     f = parser.parse(" ".join(toks))
                     try:
-                        n = len(f)
+                        n = real.flen(f)
                     except real.LoopError:
                         n = 10**6
                     k = min(n, 6)
@@ -194,6 +204,45 @@ def worker(job):
     finally:
         shutil.rmtree(d, ignore_errors=True)
     return [case]
+
+
+def _flat_parser(real, g):
+    """GLRParser for the SINGLE-FILE grammar made of the real grammar's own productions (same order, qualified names spelled with '__'
+    instead of '.', every terminal declared with its recognizer).  ImportCheck.tla proves these productions equal to Imports!Flatten, so
+    this is 'the single-file grammar obtained by inlining all rules under their qualified names' the statement compares the parser with."""
+    import re as _re
+
+    def nm(sym):
+        return ("T_" if isinstance(sym, real.parglare.grammar.Terminal) else "N_") + _re.sub(r"\W", "_", sym.fqn.replace(".", "__"))
+    try:
+        names = {}
+        for sym in list(g.nonterminals.values()) + [t for n, t in g.terminals.items() if n not in ("EMPTY", "STOP")]:
+            names.setdefault(nm(sym), set()).add(sym.fqn)
+        if any(len(v) > 1 for v in names.values()):
+            return None
+        by, order = {}, []
+        for p in g.productions[1:]:
+            k = nm(p.symbol)
+            if k not in by:
+                by[k] = []
+                order.append(k)
+            by[k].append(" ".join(nm(x) for x in p.rhs if x.name != "EMPTY") or "EMPTY")
+        start = nm(g.productions[0].rhs[0])
+        order.remove(start)
+        text = "".join("%s: %s;\n" % (k, " | ".join(by[k])) for k in [start] + order)
+        used = {x.fqn for p in g.productions[1:] for x in p.rhs}
+        terms = [t for n, t in g.terminals.items() if n not in ("EMPTY", "STOP") and t.fqn in used]
+        if terms:
+            text += "terminals\n" + "".join("%s: %s;\n" % (nm(t), _tdecl(t)) for t in terms)
+        with real.guard(20), real.quiet():
+            return real.GLRParser(real.Grammar.from_string(text))
+    except Exception:  # noqa: BLE001
+        return None
+
+
+def _tdecl(t):
+    v = t.recognizer.value
+    return '"%s"' % v.replace("\\", "\\\\").replace('"', '\\"')
 
 
 def _dump(n):
